@@ -137,6 +137,21 @@ def check_no_hidden_state(rep, src, rule, sites, why, allowed=None):
 _NL_ONLY_PATTERNS = ('\n', '\r?\n', '(?:\r)?\n', '\r\n|\n', '\n|\r\n')
 
 
+def _nl_only(pattern, flags=0):
+    """does the pattern match only line ends, "\n" or "\r\n" (and "\n" at least)?  Decided on the pattern's language."""
+    if pattern in _NL_ONLY_PATTERNS:
+        return True
+    from .. import rx
+    from ..core import AnalysisError
+    try:
+        alpha = rx.alphabet('str')
+        lang = rx.regex_lang(pattern, flags, 'fullmatch', alpha=alpha)
+        ends = rx.regex_lang('\r?\n', 0, 'fullmatch', alpha=alpha)
+        return lang.not_subset_witness(ends) is None and rx.regex_lang('\n', 0, 'fullmatch', alpha=alpha).not_subset_witness(lang) is None
+    except AnalysisError:
+        return False
+
+
 def check_line_primitive(rep, src, rule, sites, why, minimum=1):
     """where a whole text (str) is cut into lines, only "\\n" (optionally preceded by "\\r") may end a line.  `str.splitlines()` also
     cuts at VT, FF, FS, GS, RS, NEL (U+0085), LS (U+2028), PS (U+2029) and at a lone CR: text that contains one of these characters
@@ -179,7 +194,16 @@ def check_line_primitive(rep, src, rule, sites, why, minimum=1):
                     and c.args[0].value in ('\n', b'\n'):
                 what, okay = norm(c)[:60], True
             elif norm(fn) in ('re.split',) and c.args and isinstance(c.args[0], ast.Constant) and isinstance(c.args[0].value, str) and '\n' in c.args[0].value:
-                what, okay = norm(c)[:60], c.args[0].value in _NL_ONLY_PATTERNS
+                what, okay = norm(c)[:60], _nl_only(c.args[0].value)
+            elif isinstance(fn, ast.Attribute) and fn.attr == 'split' and len(c.args) == 1 and not c.keywords and isinstance(fn.value, (ast.Name, ast.Attribute)):
+                # <compiled pattern>.split(text): a pattern of the module / class that folds to a constant and can match a newline
+                rname = fn.value.id if isinstance(fn.value, ast.Name) else fn.value.attr
+                try:
+                    r_ = src.regex(owner.module.name, rname)
+                except AnalysisError:
+                    r_ = None
+                if r_ is not None and '\n' in r_['pattern'] or (r_ is not None and '\\n' in r_['pattern']):
+                    what, okay = '%s.split() with %r' % (rname, r_['pattern']), _nl_only(r_['pattern'], r_['flags'])
             elif norm(fn) in ('io.StringIO', 'StringIO') and len(c.args) == 1 and not c.keywords:
                 what, okay = norm(c)[:60], True
             if what is None:
